@@ -290,3 +290,6 @@ def run(repo: Repo, rep: Report, tier: str) -> None:
                 passes10.append(loop)
     rep.check(bool(passes10), "C12-R10", "plan_wire_colors separates a fanned-out source from the differing sources of its sinks", f"fan-out table(s) {sorted(fan)}; conflict pass present" if passes10 else
               "conflicts are built per sink only: sources that meet through a third source's fan-out stay on one colour", pw10.loc())
+
+    # ---------------- R11 --------------------------------------------------------------
+    _borrow12b(repo, rep, "C04", "C04-R11", "C12-R11", "two independent counters on one signal type keep counting independently when something reads both", floor=1)
